@@ -769,7 +769,7 @@ class DataPack:
             else:
                 function_called_namespace = self.namespace
                 __function_called = function
-            function_called_relative_path = f"data/{function_called_namespace}/function/{'s' if self.version < PackVersionFeature.LEGACY_FOLDER_RENAME else ''}/{__function_called}.mcfunction"
+            function_called_relative_path = f"data/{function_called_namespace}/function{'s' if self.version < PackVersionFeature.LEGACY_FOLDER_RENAME else ''}/{__function_called}.mcfunction"
             function_called_path = header.copy / function_called_relative_path
             is_function_called_in_copy = function_called_path.is_file()
         return is_function_called_in_copy
